@@ -6,8 +6,8 @@ Go sources mirrored (proxy/src/services/lunar-engine/streams):
   flow/flow_direction.go    getOrCreateNode, setAsRoot, IsDefined, HasValidRoot
   flow/flow_graph_node.go   addEdge (de-duplication)          flow/connection_edge.go  equal
   flow/validations.go       validateFlow / validateDirection / validateUnconnectedProcessors /
-                            detectCircularConnections / dfsDetectCycles   (simple version; C05 owns the
-                            full treatment of the validator)
+                            detectCircularConnections / dfsDetectCycles   (C05 owns the treatment of the
+                            validator; cycle DFS from every node since the fix of F05a)
   types/processor.utils.go  ProcessorDefinition.CheckCondition
 
 Representation choices
@@ -216,25 +216,24 @@ def edgeCount (g : DirGraph) : Nat := (g.nodes.map (·.edges.length)).sum
 
 def dfsFuel (g : DirGraph) : Nat := (g.nodes.length + 1) * (edgeCount g + 2) + 1
 
-/-- `detectCircularConnections`: DFS from the targets of the ROOT's edges only. -/
-def noCycleFromRoot (g : DirGraph) : Bool :=
-  match g.root with
-  | none => true
-  | some r =>
-    match g.find r with
-    | none => true
-    | some n =>
-      n.edges.all fun e =>
-        match e.target with
-        | .stream _ _ => true
-        | .node t => dfs g (dfsFuel g) [] t e.cond
+/-- the DFS `detectCircularConnections` runs for the edges of one node `n` -/
+def dfsFrom (g : DirGraph) (n : Node) : Bool :=
+  n.edges.all fun e =>
+    match e.target with
+    | .stream _ _ => true
+    | .node t => dfs g (dfsFuel g) [] t e.cond
+
+/-- `detectCircularConnections` (after the fix of F05a): the DFS runs from the edges of EVERY node of the
+    direction — every node can be the entry of a walk (the root, or the node that answered a request
+    early) — whether or not the direction has a root. -/
+def noCycleAnywhere (g : DirGraph) : Bool := g.nodes.all (dfsFrom g)
 
 /-- `validateDirection`. -/
 def validateDirection (d : Dir) (g : DirGraph) : Except BuildErr Unit :=
   if !g.isDefined then .ok () else
   if d == .req && g.root.isNone then .error .root else
   if !unconnectedOk g then .error .unconnected else
-  if !noCycleFromRoot g then .error .cycle else .ok ()
+  if !noCycleAnywhere g then .error .cycle else .ok ()
 
 /-- A built flow. -/
 structure Flow where
